@@ -3,6 +3,7 @@ import MindsVerif.Model.LexTab
 import MindsVerif.Model.Denote
 import MindsVerif.Model.LitRender
 import MindsVerif.Model.Codec
+import MindsVerif.Model.LexBq
 import MindsVerif.Gen.Lex_sqlite
 import MindsVerif.Gen.Lex_mysql
 import MindsVerif.Gen.Lex_mindsdb
@@ -69,6 +70,14 @@ def handle (kw : Dialect → KwTable) (line : String) : String :=
     else if op == "ident" then
       match lexIdentPath (kw dl) s with | none => "none" | some ps => "some " ++ encL ps
     else if op == "path" then encL (pathStrToParts s)
+    else if op == "ident2" then
+      match LexBq.lexIdentPath (kw dl) s with | none => "none" | some ps => "some " ++ encL ps
+    else if op == "path2" then encL (LexBq.pathStrToParts s)
+    else if op == "parts2" then
+      let ps := (a.splitOn ",0,").map dec
+      let str := LexBq.partsToStr reservedL ps
+      let back := match LexBq.lexIdentPath (kw dl) str with | none => "none" | some ps => "some " ++ encL ps
+      s!"{enc str} {back}"
     else if op == "num" then showNum (lexNumber dl s)
     else if op == "var" then
       match lexVariable s with | none => "none" | some (sys, v, r) => s!"some {sys} {enc v} {enc r}"
